@@ -452,3 +452,122 @@ package prover
 //@     invariant forall k, l :: 0 <= k && k < i && 0 <= l && l < len(params.MerkleProofs[k]) ==> str.isNum(params.MerkleProofs[k][l]) && p.MerkleProofs[k][l] == str.num(params.MerkleProofs[k][l])
 //@     invariant forall l :: 0 <= l && l < j ==> str.isNum(params.MerkleProofs[i][l]) && p.MerkleProofs[i][l] == str.num(params.MerkleProofs[i][l])
 //@     decreases len(params.MerkleProofs[i]) - j
+
+// ---------------------------------------------------------------------------------------
+// C07 / C12 — proving-system glue: shape validation, witness assembly, prove / verify / setup / build
+// ---------------------------------------------------------------------------------------
+
+//@ func (*InsertionParameters) ValidateShape
+//@   property C07 C09
+//@   ensures (result == nil) == (len(p.IdComms) == batchSize && len(p.MerkleProofs) == batchSize &&
+//@              (forall k :: 0 <= k && k < len(p.MerkleProofs) ==> len(p.MerkleProofs[k]) == treeDepth))
+//@   loop 1
+//@     invariant 0 <= i && i <= len(p.MerkleProofs)
+//@     invariant forall k :: 0 <= k && k < i ==> len(p.MerkleProofs[k]) == treeDepth
+
+//@ func (*DeletionParameters) ValidateShape
+//@   property C07 C09
+//@   ensures (result == nil) == (len(p.IdComms) == batchSize && len(p.MerkleProofs) == batchSize && len(p.DeletionIndices) == batchSize &&
+//@              (forall k :: 0 <= k && k < len(p.MerkleProofs) ==> len(p.MerkleProofs[k]) == treeDepth))
+//@   loop 1
+//@     invariant 0 <= i && i <= len(p.MerkleProofs)
+//@     invariant forall k :: 0 <= k && k < i ==> len(p.MerkleProofs[k]) == treeDepth
+
+//@ func (*ProvingSystem) ProveInsertion
+//@   property C07 C09
+//@   let shapeOK = len(params.IdComms) == ps.BatchSize && len(params.MerkleProofs) == ps.BatchSize &&
+//@                 (forall k :: 0 <= k && k < len(params.MerkleProofs) ==> len(params.MerkleProofs[k]) == ps.TreeDepth)
+//@   ensures result1 == nil ==> shapeOK
+//@   ensures (result1 != nil) == (result0 == nil)
+//@   loop 1
+//@     invariant 0 <= i && i <= ps.BatchSize && len(idComms) == ps.BatchSize
+//@     invariant forall k :: 0 <= k && k < i ==> idComms[k] == params.IdComms[k] % P
+//@   loop 2
+//@     invariant 0 <= i && i <= ps.BatchSize && len(proofs) == ps.BatchSize
+//@     invariant forall k :: 0 <= k && k < i ==> len(proofs[k]) == ps.TreeDepth
+//@     invariant forall k, l :: 0 <= k && k < i && 0 <= l && l < ps.TreeDepth ==> proofs[k][l] == params.MerkleProofs[k][l] % P
+//@   loop 3
+//@     invariant 0 <= j && j <= ps.TreeDepth && len(proofs) == ps.BatchSize && len(proofs[i]) == ps.TreeDepth
+//@     invariant forall k :: 0 <= k && k < i ==> len(proofs[k]) == ps.TreeDepth
+//@     invariant forall k, l :: 0 <= k && k < i && 0 <= l && l < ps.TreeDepth ==> proofs[k][l] == params.MerkleProofs[k][l] % P
+//@     invariant forall l :: 0 <= l && l < j ==> proofs[i][l] == params.MerkleProofs[i][l] % P
+//@   assert@def:assignment assignment.InputHash == params.InputHash % P && assignment.StartIndex == params.StartIndex &&
+//@                         assignment.PreRoot == params.PreRoot % P && assignment.PostRoot == params.PostRoot % P
+//@   assert@def:assignment len(assignment.IdComms) == ps.BatchSize && (forall k :: 0 <= k && k < ps.BatchSize ==> assignment.IdComms[k] == params.IdComms[k] % P)
+//@   assert@def:assignment len(assignment.MerkleProofs) == ps.BatchSize && (forall k, l :: 0 <= k && k < ps.BatchSize && 0 <= l && l < ps.TreeDepth ==>
+//@                         len(assignment.MerkleProofs[k]) == ps.TreeDepth && assignment.MerkleProofs[k][l] == params.MerkleProofs[k][l] % P)
+//@   assert@def:witness witness == gnark.fullWitness(assignment.InputHash, assignment.StartIndex, assignment.PreRoot, assignment.PostRoot,
+//@                         assignment.IdComms, len(assignment.IdComms), assignment.MerkleProofs, lens(assignment.MerkleProofs), len(assignment.MerkleProofs))
+//@   assert@def:proof err == nil ==> proof == gnark.proveOut(ps.ConstraintSystem, ps.ProvingKey, witness)
+//@   assert@return result1 == nil ==> deref(result0).Proof == proof
+
+//@ func (*ProvingSystem) ProveDeletion
+//@   property C07 C09
+//@   let shapeOK = len(params.IdComms) == ps.BatchSize && len(params.MerkleProofs) == ps.BatchSize && len(params.DeletionIndices) == ps.BatchSize &&
+//@                 (forall k :: 0 <= k && k < len(params.MerkleProofs) ==> len(params.MerkleProofs[k]) == ps.TreeDepth)
+//@   ensures result1 == nil ==> shapeOK
+//@   ensures (result1 != nil) == (result0 == nil)
+//@   loop 1
+//@     invariant 0 <= i && i <= ps.BatchSize && len(deletionIndices) == ps.BatchSize
+//@     invariant forall k :: 0 <= k && k < i ==> deletionIndices[k] == params.DeletionIndices[k]
+//@   loop 2
+//@     invariant 0 <= i && i <= ps.BatchSize && len(idComms) == ps.BatchSize
+//@     invariant forall k :: 0 <= k && k < i ==> idComms[k] == params.IdComms[k] % P
+//@   loop 3
+//@     invariant 0 <= i && i <= ps.BatchSize && len(proofs) == ps.BatchSize
+//@     invariant forall k :: 0 <= k && k < i ==> len(proofs[k]) == ps.TreeDepth
+//@     invariant forall k, l :: 0 <= k && k < i && 0 <= l && l < ps.TreeDepth ==> proofs[k][l] == params.MerkleProofs[k][l] % P
+//@   loop 4
+//@     invariant 0 <= j && j <= ps.TreeDepth && len(proofs) == ps.BatchSize && len(proofs[i]) == ps.TreeDepth
+//@     invariant forall k :: 0 <= k && k < i ==> len(proofs[k]) == ps.TreeDepth
+//@     invariant forall k, l :: 0 <= k && k < i && 0 <= l && l < ps.TreeDepth ==> proofs[k][l] == params.MerkleProofs[k][l] % P
+//@     invariant forall l :: 0 <= l && l < j ==> proofs[i][l] == params.MerkleProofs[i][l] % P
+//@   assert@def:assignment assignment.InputHash == params.InputHash % P && assignment.PreRoot == params.PreRoot % P && assignment.PostRoot == params.PostRoot % P
+//@   assert@def:assignment len(assignment.DeletionIndices) == ps.BatchSize && (forall k :: 0 <= k && k < ps.BatchSize ==> assignment.DeletionIndices[k] == params.DeletionIndices[k])
+//@   assert@def:assignment len(assignment.IdComms) == ps.BatchSize && (forall k :: 0 <= k && k < ps.BatchSize ==> assignment.IdComms[k] == params.IdComms[k] % P)
+//@   assert@def:assignment len(assignment.MerkleProofs) == ps.BatchSize && (forall k, l :: 0 <= k && k < ps.BatchSize && 0 <= l && l < ps.TreeDepth ==>
+//@                         len(assignment.MerkleProofs[k]) == ps.TreeDepth && assignment.MerkleProofs[k][l] == params.MerkleProofs[k][l] % P)
+//@   assert@def:witness witness == gnark.fullWitnessDel(assignment.InputHash, assignment.DeletionIndices, len(assignment.DeletionIndices), assignment.PreRoot, assignment.PostRoot,
+//@                         assignment.IdComms, len(assignment.IdComms), assignment.MerkleProofs, lens(assignment.MerkleProofs), len(assignment.MerkleProofs))
+//@   assert@def:proof err == nil ==> proof == gnark.proveOut(ps.ConstraintSystem, ps.ProvingKey, witness)
+//@   assert@return result1 == nil ==> deref(result0).Proof == proof
+
+//@ func (*ProvingSystem) VerifyInsertion
+//@   property C07
+//@   ensures result == nil ==> gnark.verifyOut(proof.Proof, ps.VerifyingKey, gnark.pubWitness(inputHash % P)) == 0
+//@   ensures gnark.verifyOut(proof.Proof, ps.VerifyingKey, gnark.pubWitness(inputHash % P)) != 0 ==> result != nil
+
+//@ func (*ProvingSystem) VerifyDeletion
+//@   property C07
+//@   ensures result == nil ==> gnark.verifyOut(proof.Proof, ps.VerifyingKey, gnark.pubWitness(inputHash % P)) == 0
+//@   ensures gnark.verifyOut(proof.Proof, ps.VerifyingKey, gnark.pubWitness(inputHash % P)) != 0 ==> result != nil
+
+//@ func BuildR1CSInsertion
+//@   property C07 C12
+//@   ensures result1 == nil ==> result0 == gnark.compiledIns(treeDepth, batchSize)
+//@   loop 1
+//@     invariant 0 <= i && i <= batchSize && len(proofs) == batchSize
+//@     invariant forall k :: 0 <= k && k < i ==> len(proofs[k]) == treeDepth
+
+//@ func BuildR1CSDeletion
+//@   property C07 C12
+//@   ensures result1 == nil ==> result0 == gnark.compiledDel(treeDepth, batchSize)
+//@   loop 1
+//@     invariant 0 <= i && i <= batchSize && len(proofs) == batchSize
+//@     invariant forall k :: 0 <= k && k < i ==> len(proofs[k]) == treeDepth
+
+//@ func SetupInsertion
+//@   property C07 C12
+//@   ensures (result1 != nil) == (result0 == nil)
+//@   ensures result1 == nil ==> deref(result0).TreeDepth == treeDepth && deref(result0).BatchSize == batchSize &&
+//@              deref(result0).ConstraintSystem == gnark.compiledIns(treeDepth, batchSize) &&
+//@              deref(result0).ProvingKey == gnark.setupPK(gnark.compiledIns(treeDepth, batchSize)) &&
+//@              deref(result0).VerifyingKey == gnark.setupVK(gnark.compiledIns(treeDepth, batchSize))
+
+//@ func SetupDeletion
+//@   property C07 C12
+//@   ensures (result1 != nil) == (result0 == nil)
+//@   ensures result1 == nil ==> deref(result0).TreeDepth == treeDepth && deref(result0).BatchSize == batchSize &&
+//@              deref(result0).ConstraintSystem == gnark.compiledDel(treeDepth, batchSize) &&
+//@              deref(result0).ProvingKey == gnark.setupPK(gnark.compiledDel(treeDepth, batchSize)) &&
+//@              deref(result0).VerifyingKey == gnark.setupVK(gnark.compiledDel(treeDepth, batchSize))
